@@ -84,6 +84,9 @@ pub fn c13(ctx: &mut Ctx, acc: &mut Acc) -> i32 {
             acc.case(Some(sig(&[id.as_bytes(), &bytes])));
             if bytes.starts_with(&lead) {
                 acc.count("leading_index_is_position_in_index_order");
+                if e.wire_index(*decl) >= 128 {
+                    acc.count("two_byte_constructor_index_checked");
+                }
                 if e.sorted {
                     acc.count("leading_index_checked_for_sorted_constructors");
                 }
